@@ -82,10 +82,11 @@ def _run_one(pid, tier, seed, scratch, mir_dir, cfg, jobs, item):
                   covers=[r["witnesses_hit"], r["witnesses"]], nonvacuous=r["witnesses_hit"] > 0,
                   native_validations=r.get("native_validations", 0),
                   sample=dict(harness=f"{mod}::{name}", paths=r["paths"], outcomes=r["outcomes"], examples=r["samples"][:3]))
-        if r["unmodelled"]:
+        has_repro = any(c.get("reproduced") for c in r["counterexamples"])
+        if r["unmodelled"] and not has_repro:
             ob["verdict"] = "inconclusive"
             ob["why"] = "unmodelled construct: " + r["unmodelled"][0][:300]
-        elif r["budget"]:
+        elif r["budget"] and not has_repro:
             ob["verdict"] = "inconclusive"; ob["why"] = "path budget exceeded"
         elif r["counterexamples"]:
             ce = r["counterexamples"][0]
